@@ -256,6 +256,47 @@ func runC12(c *Ctx) {
 			}
 			if fld == hasFld {
 				b, isConst := ConstBool(st.Val)
+				if !isConst {
+					// the flag may be handed up by a helper of the extraction (refactorings B23_r4,
+					// B28_r2: `timeout, has, err := connectExtractTimeout(headers)`): then every
+					// return of the helper yields a constant there, and `true` only where the same
+					// two facts hold
+					if ex, isEx := st.Val.(*ssa.Extract); isEx {
+						if call, isCall := ex.Tuple.(*ssa.Call); isCall {
+							if g := call.Call.StaticCallee(); g != nil && p.inScope(g) && extractReach[g] {
+								okAll, why := true, ""
+								nRet := 0
+								ForEachInstr(g, func(in ssa.Instruction) {
+									ret, isRet := in.(*ssa.Return)
+									if !isRet {
+										return
+									}
+									rv := ReturnValues(ret)
+									if ex.Index >= len(rv) {
+										okAll, why = false, "result not found"
+										return
+									}
+									kb, isK := ConstBool(rv[ex.Index])
+									if !isK {
+										okAll, why = false, "a return of "+FuncName(g)+" yields a computed flag"
+										return
+									}
+									nRet++
+									if kb {
+										ne, de, _ := timeoutFactsAt(ret.Block())
+										if !ne || !de {
+											okAll, why = false, "a return of "+FuncName(g)+" answers 'has a timeout' without a non-empty header and a successful decode"
+										}
+									}
+								})
+								c.Check(okAll && nRet > 0, "C12.2", FuncName(fn), "store:hasTimeout", st.Pos(),
+									"hasTimeout is the flag "+FuncName(g)+" returns: constant on every return, true only after a non-empty header and a successful decode",
+									"hasTimeout is taken from "+FuncName(g)+": "+why)
+								continue
+							}
+						}
+					}
+				}
 				if !isConst || !b {
 					c.Bad("C12.2", FuncName(fn), "store:hasTimeout", st.Pos(), "hasTimeout is stored from a non-constant or false value")
 					continue
@@ -949,4 +990,30 @@ func runC12CountSpelledInDigits(c *Ctx) {
 				"the count of a timeout is handed to "+N(call.Common().StaticCallee())+" without having been validated as ASCII digits: the parser accepts a sign, so +1S / -0S / +5 are taken for timeouts and forwarded re-encoded instead of being rejected as malformed")
 		}
 	}
+}
+
+
+// timeoutFactsAt: at block b, is 'the header value is not empty' known, and 'a decode returned no error'?
+func timeoutFactsAt(b *ssa.BasicBlock) (nonEmpty, decoded bool, used []string) {
+	for _, f := range FactsAt(b) {
+		cmp, ok := f.AsCmp()
+		if !ok {
+			continue
+		}
+		if s, isS := ConstString(cmp.Y); isS && s == "" && cmp.Op == token.NEQ {
+			if call, isCall := strip(cmp.X).(*ssa.Call); isCall && IsCallTo(call, "(net/http.Header).Get") {
+				nonEmpty = true
+				used = append(used, "header value != \"\"")
+			}
+		}
+		if IsNilConst(cmp.Y) && cmp.Op == token.EQL {
+			for _, l := range Origins(cmp.X) {
+				if l.Kind == "call" && l.Index >= 1 {
+					decoded = true
+					used = append(used, "decode error == nil ("+CalleeName(l.Call)+")")
+				}
+			}
+		}
+	}
+	return
 }
